@@ -44,6 +44,27 @@ def urlEnvOf (E : SeqEnv) : RTV.Url.UrlEnv where
   gTld2 := RTV.Gen.urlRegex2_g_Tld
   tlds := RTV.Gen.tldList
 
+/-- `ChineseURLExtractorConfiguration` (cultures zh-*, ja-*): its own `UrlRegex` / `IpUrlRegex`; `UrlRegex2`, the time
+term and the TLD list are the base ones -/
+def urlEnvZh (E : SeqEnv) : RTV.Url.UrlEnv :=
+  { urlEnvOf E with ipUrl := RTV.Gen.zhIpUrlRegex, url := RTV.Gen.zhUrlRegex, gTld := RTV.Gen.zhUrlRegex_g_Tld }
+
+/-- `AbstractSequenceModel.parse` with a one-regex `SequenceExtractor` (hashtag, mention, e-mail): preprocess,
+finditer, sweep, value = text. Fields: type name, text, value. -/
+def simpleModelRun (E : SeqEnv) (re : RE) (typeName : Str) (q : Str) : List (Str × Str × Str) :=
+  match RTV.Preprocess.preprocess RTV.Gen.recodePairs E.lowerC false [] q with
+  | none => []
+  | some p => (seqSweep E.K p (tagged "x" (findAll E.T p.toArray re))).map fun r => (typeName, r.text, r.text)
+
+/-- `recognize_url(q, culture)` reduced to the fields the spec runner compares -/
+def urlSpecRun (E : SeqEnv) (zh : Bool) (q : Str) : List (Str × Str × Str) :=
+  match RTV.Preprocess.preprocess RTV.Gen.recodePairs E.lowerC false [] q with
+  | none => []
+  | some p =>
+    match RTV.Url.urlExtract (if zh then urlEnvZh E else urlEnvOf E) p with
+    | none => []
+    | some ers => ers.map fun r => (ofString "url", r.text, r.text)
+
 /-- `recognize_url(q, 'en-us')`: `QueryProcessor.preprocess`, `BaseURLExtractor.extract`, `SequenceParser.parse`
 (value = text); an exception inside the `try` yields no entity. Fields: type name, start, end, text, value. -/
 def urlModelRun (E : SeqEnv) (q : Str) : List (Str × Nat × Int × Str × Str) :=
